@@ -1217,6 +1217,7 @@ func c13LastSecond(c *hx.Client, hist *[][]string) {
 		at := start/1000*1000 + 850
 		key := fmt.Sprintf("klast%d", round)
 		var ok bool
+		slack := int64(0) // a relative expiry lands at most this much after `at` (the request's round trip)
 		switch round {
 		case 0:
 			_, ok = do("SET", key, "v")
@@ -1226,10 +1227,14 @@ func c13LastSecond(c *hx.Client, hist *[][]string) {
 		case 1:
 			_, ok = do("SET", key, "v")
 			if ok {
-				_, ok = do("PEXPIRE", key, strconv.FormatInt(at-time.Now().UnixMilli(), 10))
+				t := time.Now().UnixMilli()
+				_, ok = do("PEXPIRE", key, strconv.FormatInt(at-t, 10))
+				slack = time.Now().UnixMilli() - t
 			}
 		default:
-			_, ok = do("SET", key, "v", "PX", strconv.FormatInt(at-time.Now().UnixMilli(), 10))
+			t := time.Now().UnixMilli()
+			_, ok = do("SET", key, "v", "PX", strconv.FormatInt(at-t, 10))
+			slack = time.Now().UnixMilli() - t
 		}
 		if !ok {
 			return
@@ -1244,7 +1249,9 @@ func c13LastSecond(c *hx.Client, hist *[][]string) {
 		}
 		if ex.Kind == ':' && ex.Int == 1 && after < at-20 {
 			sum.Handled += 3
-			if !(ttl.Kind == ':' && ttl.Int == 0) {
+			// (a relative expiry is added to the server's clock when the request is processed: under
+			// load it may land in the next second, so 1 is accepted there; the absolute one is exact)
+			if !(ttl.Kind == ':' && (ttl.Int == 0 || round > 0 && ttl.Int == 1)) {
 				fail("c13-reply", fmt.Sprintf("TTL of the live key %s, which expires %d ms into the current second, answered %s; the documented reply is the whole seconds left: 0 (EXISTS, asked afterwards, answered 1)", key, at%1000, ttl.Canon()), *hist)
 				return
 			}
@@ -1253,7 +1260,7 @@ func c13LastSecond(c *hx.Client, hist *[][]string) {
 				return
 			}
 		}
-		for time.Now().UnixMilli() < at+30 {
+		for time.Now().UnixMilli() < at+slack+30 {
 			time.Sleep(5 * time.Millisecond)
 		}
 		ttl, ok1 = do("TTL", key)
